@@ -140,8 +140,9 @@ for nm in ("register", "unregister"):
            doc=f"module-level alias of _resource_tracker.{nm}")
     cc = S.ext(f"mp.ResourceTracker.{nm}", cite=f"multiprocessing.resource_tracker.ResourceTracker.{nm}(name, rtype): ensure_running() then one '{nm.upper()}:name:rtype' line")
     cc.param("self", T.Ref("ResourceTracker")).param("name", T.Obj).param("rtype", T.Obj).event(f"tracker_{nm}", "name", "rtype").modifies()
-    # ensure_running() may fail to start the tracker (OSError), the line may not be ASCII (UnicodeEncodeError) or exceed 512 bytes (ValueError)
-    cc.may_raise.append(("Exception", None))
+    # ensure_running() may fail to start the tracker (OSError), the line may not be ASCII (UnicodeEncodeError) or exceed 512 bytes (ValueError); it unblocks
+    # SIGINT after spawning the tracker, so a pending KeyboardInterrupt (or the SystemExit of a SIGTERM handler) is delivered there: any BaseException
+    cc.may_raise.append(("BaseException", None))
 
 # ---------------------------------------------------------------- C13
 c = M.contract("SemLock._make_name", props=["C13"])
@@ -191,7 +192,7 @@ c = M.contract("SemLock._cleanup", props=["C13"])
 c.param("name", T.Str)
 c.ensures("cleanup/unlinked-once-and-always-unregistered", "log_count('cleanup') == 1 and log_arg('cleanup', 0, 1) == name and log_count('tracker_unregister') == 1 and "
           "log_arg('tracker_unregister', 0, 0) == name and log_arg('tracker_unregister', 0, 1) == 'semlock' and log_before('cleanup', 'tracker_unregister')")
-c.raises("cleanup/other-errors-propagate-after-unregistering", "Exception",
+c.raises("cleanup/other-errors-propagate-after-unregistering", "BaseException",
          post="log_count('tracker_unregister') == 1 and log_arg('tracker_unregister', 0, 0) == name")
 c.raises_only("cleanup/only-exceptions")
 c.modifies("G.cleanup_semlock", "G.cleanup_seq")
@@ -483,3 +484,10 @@ c.ensures("factory/builds-one-loky-Condition-over-the-callers-lock", "cls_is(res
 c.raises("factory/creation-errors-propagate", "BaseException")
 c.ensures("a-successful-construction-unlinks-nothing", "G.cleanup_semlock == old(G.cleanup_semlock) and G.cleanup_seq == old(G.cleanup_seq)")
 c.modifies("G.sem_created", "G.sem_val", "G.cleanup_semlock", "G.cleanup_seq")
+
+# monitor discipline (what makes the rely A-monitor true of loky's own code): the flag is read by take-and-put-back, which is atomic only because every
+# operation on the flag semaphore, in every method, happens between entering and leaving the event's condition
+IN_MONITOR = "implies(arg_self is self._flag._semlock, log_count('call:Condition.__enter__') == log_count('call:Condition.__exit__') + 1)"
+for _m in ("Event.is_set", "Event.set", "Event.clear", "Event.wait"):
+    for _op in ("acquire", "release"):
+        S.contracts[f"{SY}:{_m}"].at_call(f"_SemLock.{_op}", "flag-semaphore-touched-only-inside-the-events-condition", IN_MONITOR, prop="C14")
